@@ -26,6 +26,7 @@ import (
 
 	"github.com/ProtonMail/go-crypto/openpgp"
 	"github.com/ProtonMail/go-crypto/openpgp/clearsign"
+	"github.com/ProtonMail/go-crypto/openpgp/packet"
 )
 
 type PgpSignature struct {
@@ -55,7 +56,12 @@ func VerifyDetached(signature, signed io.Reader, keyring openpgp.EntityList) (*P
 		return nil, fmt.Errorf("signature digest %s is unknown or unavailable", hash)
 	}
 	d := hash.New()
-	if _, err := io.Copy(d, signed); err != nil {
+	var w io.Writer = d
+	if pkt.SigType == packet.SigTypeText {
+		// text signatures are made over the document with its line endings converted to CRLF
+		w = openpgp.NewCanonicalTextHash(d)
+	}
+	if _, err := io.Copy(w, signed); err != nil {
 		return nil, err
 	}
 	// check signature
